@@ -1,7 +1,7 @@
 /-
   Rtp/Pred/C14.lean — C14 as executable predicates over (input, observation).
-  Everything here is phrased with Rtp/Spec/Rfc7798.lean (numbers, `/`, `%`), never with the
-  model of the Go code.
+  Everything here is phrased with Rtp/Spec/Rfc7798.lean (numbers, `/`, `%`); from the model file
+  only the record types `Parsed` and `Cfg` are used, never a function that models the Go code.
 -/
 import Rtp.Spec.Rfc7798
 import Rtp.Model.H265
